@@ -156,6 +156,17 @@ def check(run):
                 grid = rng.sample(grid, 400) + grid[-4:]
             for kind in ("hover", "dot", "colon"):
                 cases.append((t, [(kind, l, c) for l, c in grid]))
+        # every byte-prefix of a text that uses each lexical form (multi-line strings, escapes, comments, floats, attributes,
+        # non-ASCII): the buffer while each token is being typed; requests at the end of the buffer and at its start
+        lexical = ("#[derive(ToString)]\nstruct Pt { x: int32, y: float64 }\n// note: é\nfn main() -> unit {\n    let p = Pt { x: 1, y: 2.5e1 };\n    let s = \\\\first line\n        \\\\second \\\\ line\n        \\\\third\n    ;\n"
+                   "    let t = \"a\\tb\\\"c\\\\\";\n    let n = p.x + 0x1f - 1_0;\n    let u = (p.y, 'c', !true && false || n >= 2);\n    string_println(s + t)\n}\n")
+        stats["lexical_prefixes"] = 0
+        for c in range(len(lexical) + 1):
+            t = lexical[:c]
+            ls = t.split("\n")
+            li, co = len(ls) - 1, len(ls[-1].encode())
+            cases.append((t, [(kind, l_, c_) for kind in ("hover", "dot", "colon") for l_, c_ in ((li, co), (li, max(0, co - 1)), (0, 0), (max(0, li - 1), 2))]))
+            stats["lexical_prefixes"] += 1
         for (t, qs), rs in zip(cases, run_queries(cases)):
             for q, r in zip(qs, rs):
                 stats["crash_queries"] += 1
